@@ -424,7 +424,7 @@ fn malformed_invocations(dir: &Path) -> Vec<(String, Invocation)> {
         }
     }
     // arguments
-    for (class, a_opt) in [("missing", vec![]), ("unknown", vec!["-a", "7"]), ("zero", vec!["-a", "0"]), ("n_plus_one", vec!["-a", "3"]), ("negative", vec!["-a", "-1"]), ("label_of_other_format", vec!["-a", "a"]), ("twice", vec!["-a", "1", "-a", "2"]), ("empty", vec!["-a", ""])] {
+    for (class, a_opt) in [("missing", vec![]), ("unknown", vec!["-a", "7"]), ("zero", vec!["-a", "0"]), ("n_plus_one", vec!["-a", "3"]), ("negative", vec!["-a", "-1"]), ("label_of_other_format", vec!["-a", "a"]), ("empty", vec!["-a", ""])] {
         for p in ["DC-CO", "DS-PR", "DC-ST", "DS-STG", "DC-ID", "DS-GR"] {
             for (bin, pre) in [(bin_solve(), vec!["solve"]), (bin_iccma(), vec![])] {
                 let mut a: Vec<String> = pre.iter().map(|s| s.to_string()).collect();
@@ -457,9 +457,7 @@ fn malformed_invocations(dir: &Path) -> Vec<(String, Invocation)> {
     out.push(("option:unsupported_reader".into(), Invocation { bin: bin_solve(), args: vec!["solve".into(), "-f".into(), good_af.clone(), "-p".into(), "SE-PR".into(), "-r".into(), "iccma23_aba".into()] }));
     out.push(("option:missing_file_option".into(), Invocation { bin: bin_solve(), args: vec!["solve".into(), "-p".into(), "SE-ST".into()] }));
     out.push(("option:missing_file_option".into(), Invocation { bin: bin_iccma(), args: vec!["-p".into(), "SE-ST".into()] }));
-    out.push(("option:file_twice".into(), Invocation { bin: bin_solve(), args: vec!["solve".into(), "-f".into(), good_af.clone(), "-f".into(), good_af.clone(), "-p".into(), "SE-ST".into()] }));
     out.push(("option:external_solver_missing".into(), Invocation { bin: bin_solve(), args: vec!["solve".into(), "-f".into(), good_af.clone(), "-p".into(), "SE-ST".into(), "--external-sat-solver".into(), "/nonexistent/solver".into(), "--logging-level".into(), "off".into()] }));
-    out.push(("option:external_opt_without_solver".into(), Invocation { bin: bin_solve(), args: vec!["solve".into(), "-f".into(), good_af.clone(), "-p".into(), "SE-ST".into(), "--external-sat-solver-opt".into(), "x".into()] }));
     out
 }
 
